@@ -81,6 +81,7 @@ pub fn configs(tier: Tier) -> Vec<String> {
         // large backing arrays: a user defined array of 384 elements, and the largest built-in one
         v.push("lock=local,shared=0,buf=user,cap=384,payload=val".to_string());
         v.push("lock=local,shared=0,buf=huge,cap=65536,payload=val".to_string());
+        v.push("lock=local,shared=1,buf=huge,cap=65536,payload=val".to_string());
     }
     for lock in ["local", "sync", "spin"] {
         for shared in 0..2 {
@@ -122,6 +123,13 @@ pub fn scenarios(cfg: &str) -> Vec<Vec<Ev>> {
     let e = Ev::new;
     let cap = cfg_num(cfg, "cap", 0);
     let mut v = vec![];
+    if cap > 100 && cfg_num(cfg, "shared", 0) == 1 {
+        // fill completely, then the last receiver handle goes away: everything must be discarded at once
+        let mut s = vec![e(TRY_SEND, 0, 0); cap as usize + 1];
+        s.push(e(DROP_RX, 0, 0));
+        s.push(e(TRY_SEND, 0, 0));
+        return vec![s];
+    }
     if cap > 100 {
         // fill the channel completely, one more try_send must be Full, drain half, refill, drain in order
         let mut s = vec![e(TRY_SEND, 0, 0); cap as usize + 1];
@@ -440,6 +448,7 @@ fn make_api<M: RawMutex + 'static, P: Payload>(cfg: &str) -> Box<dyn ChanApi<M, 
         (true, "array", 2) => s::<M, P, ArrayBuf<P, [P; 2]>>(2, false, false),
         (true, "array", 3) => s::<M, P, ArrayBuf<P, [P; 3]>>(3, false, false),
         (true, "array", _) => s::<M, P, ArrayBuf<P, [P; 5]>>(5, false, false),
+        (true, "huge", _) => s::<M, P, ArrayBuf<P, [P; 65536]>>(65536, false, false),
         (true, "fixed", c) => s::<M, P, FixedHeapBuf<P>>(c, false, c > 0),
         (true, _, c) => s::<M, P, GrowingHeapBuf<P>>(c, true, true),
     }
@@ -508,9 +517,7 @@ impl<M: RawMutex + 'static, P: Payload> MpmcCore<M, P> {
     fn new_tag(&mut self) -> u32 {
         let t = self.next_tag;
         self.next_tag += 1;
-        if !self.big() {
-            self.outstanding.push(t);
-        }
+        self.outstanding.push(t);
         t
     }
     fn buffered(&self) -> usize {
@@ -552,12 +559,11 @@ impl<M: RawMutex + 'static, P: Payload> MpmcCore<M, P> {
 
     /// A tag left the harness' world: it must have been dropped exactly once by now.
     fn expect_dropped(&mut self, ctx: &mut Ctx, tag: u32, why: &'static str) {
-        if self.big() {
-            return;
-        }
         let d = payload::drops(tag);
         ctx.check("C08", "value-dropped-exactly-once-when-discarded", true, d == 1, || format!("tag {} has been dropped {} times after {}", tag, d, why));
-        self.outstanding.retain(|t| *t != tag);
+        if let Some(p) = self.outstanding.iter().rposition(|t| *t == tag) {
+            self.outstanding.swap_remove(p);
+        }
     }
 
     /// The harness got a value back (received / handed back): check identity, drop it.
@@ -566,7 +572,9 @@ impl<M: RawMutex + 'static, P: Payload> MpmcCore<M, P> {
         let before = payload::drops(tag);
         ctx.check("C08", "value-not-dropped-while-reachable", true, before == 0, || format!("tag {} obtained by {} had already been dropped {} times", tag, why, before));
         drop(v);
-        self.outstanding.retain(|t| *t != tag);
+        if let Some(p) = self.outstanding.iter().position(|t| *t == tag) {
+            self.outstanding.swap_remove(p);
+        }
         tag
     }
 
@@ -604,16 +612,14 @@ impl<M: RawMutex + 'static, P: Payload> MpmcCore<M, P> {
     fn model_clear(&mut self, ctx: &mut Ctx) {
         self.model_close();
         let tags: Vec<u32> = self.order.drain(..).map(|e| e.0).collect();
+        let gone: std::collections::HashSet<u32> = tags.iter().copied().collect();
         for t in tags {
-            if t >= payload::UNTRACKED {
-                continue;
-            }
             let d = payload::drops(t);
             ctx.check("C11", "last-receiver-drop-discards-buffered-values-immediately", true, d == 1, || {
                 format!("buffered tag {} has drop count {} right after the last receiver handle was dropped", t, d)
             });
-            self.outstanding.retain(|x| *x != t);
         }
+        self.outstanding.retain(|x| !gone.contains(x));
     }
 
     fn on_received(&mut self, ctx: &mut Ctx, v: P, how: &'static str) {
@@ -732,7 +738,12 @@ impl<M: RawMutex + 'static, P: Payload> MpmcCore<M, P> {
             ctx.check("C11", "every-pending-future-woken-after-close", self.closed, p.1, || format!("receiver {} is pending after close and was not woken", p.0));
         }
         // C08: nothing that is still reachable has been dropped
-        for t in &self.outstanding {
+        let n_out = self.outstanding.len();
+        for (ix, t) in self.outstanding.iter().enumerate() {
+            // very large buffers: the two ends of the list are scanned on every event, everything at the audits
+            if n_out > 256 && ix >= 64 && ix + 64 < n_out {
+                continue;
+            }
             let d = payload::drops(*t);
             ctx.check("C08", "value-not-dropped-while-reachable", true, d == 0, || format!("tag {} is still inside a future / the channel but has drop count {}", t, d));
         }
@@ -769,7 +780,7 @@ impl<M: RawMutex + 'static, P: Payload> MpmcCore<M, P> {
         let api = make_api::<M, P>(cfg);
         let cap = api.cap();
         let big = cap > 100;
-        let base = if big { payload::UNTRACKED } else { payload::reserve(if bounded { 512 } else { 4100 }) };
+        let base = payload::reserve(if big { 131_000 } else if bounded { 512 } else { 4100 });
         let mut c = MpmcCore {
             api: Some(api),
             cap,
@@ -796,7 +807,7 @@ impl<M: RawMutex + 'static, P: Payload> MpmcCore<M, P> {
     }
 
     pub fn enabled(&self, out: &mut Vec<Ev>) {
-        let tags_left = self.cap > 100 || ((self.next_tag - self.base) as usize) < if cfg!(miri) { 300 } else if self.bounded { 500 } else { 4000 };
+        let tags_left = ((self.next_tag - self.base) as usize) < if self.cap > 100 { 130_000 } else if cfg!(miri) { 300 } else if self.bounded { 500 } else { 4000 };
         let has_tx = self.api().n_tx() > 0;
         let has_rx = self.api().n_rx() > 0;
         let mut created = false;
@@ -1242,7 +1253,7 @@ impl<M: RawMutex + 'static, P: Payload> MpmcCore<M, P> {
         let left = std::mem::take(&mut self.outstanding);
         ctx.check("C08", "every-value-accounted-for-at-the-end", true, left.is_empty(), || format!("tags {:?} are neither received, handed back nor dropped", left));
         // global audit over every tag of this history
-        for t in self.base..(if self.base >= payload::UNTRACKED { self.base } else { self.next_tag }) {
+        for t in self.base..self.next_tag {
             let d = payload::drops(t);
             ctx.check("C08", "every-value-dropped-exactly-once-overall", true, d == 1, || format!("tag {} was dropped {} times over the whole history", t, d));
         }
